@@ -208,6 +208,7 @@ type c7world struct {
 	base   []c7field // fields added by a lazy-with wrapper around the whole stack
 	// streamRefl: the leaves' encoders use a streaming reflected encoder
 	streamRefl  bool
+	nsHeavy     bool                // namespaces are the most frequent field kind in this run
 	scratch     map[int][]zap.Field // per task: the field slice it reuses for derivations
 	scratchWant map[int][]zap.Field // what the task put into it for the derivation in progress
 }
@@ -433,6 +434,9 @@ func (w *c7world) genFields(g *zsim.Stream, id int, allowMut bool, slogOnly bool
 		if allowMut {
 			wts[c7Mut] = 3
 		}
+		if w.nsHeavy {
+			wts[c7NS] = 7
+		}
 		if slogOnly {
 			wts = []int{4, 3, 0, 0, 0, 0, 0, 0, 0, 0, 0}
 		}
@@ -565,6 +569,13 @@ func runC07(c *Ctx) {
 		nOps = 30 + g.Draw(24) // now and then many and deep derivations
 		c.R.Probe("derivation program of 30-53 operations")
 	}
+	// half of the deep programs build one long chain in which namespaces pile
+	// up: dozens of them are open at the end of an entry
+	nsChain := deep && g.Chance(2)
+	w.nsHeavy = nsChain
+	if nsChain {
+		c.R.Probe("a derivation chain that opens namespaces at most steps")
+	}
 	nShared := 0
 	if nTasks > 1 {
 		nShared = 1 + g.Draw(4)
@@ -612,6 +623,9 @@ func runC07(c *Ctx) {
 		switch op.kind {
 		case 0:
 			op.node = usable[g.Draw(len(usable))]
+			if nsChain && !g.Chance(5) {
+				op.node = usable[len(usable)-1]
+			}
 			if gn[op.node].slog {
 				op.how = c7Slog
 			} else {
